@@ -340,9 +340,11 @@ def process (s : St) (f : Frame) (tgt : Option Caller) : St :=
   | .pushPromise _, _ => readerCleanup s (some 1)
   | .goAway last code, _ => setGoAway s last code
   | .settings m, _ =>
-    match m with
-    | some v => { s with maxConc := v, seenSettings := true }
-    | none => if s.seenSettings then s else { s with maxConc := 1000, seenSettings := true }
+    let s1 : St := match m with
+      | some v => { s with maxConc := v, seenSettings := true }
+      | none => if s.seenSettings then s else { s with maxConc := 1000, seenSettings := true }
+    -- a raised limit wakes whoever sleeps in awaitOpenSlotForStreamLocked (/repo a90e62e)
+    if s1.maxConc > s.maxConc then broadcast s1 else s1
   | .eof, _ => readerCleanup s none
 
 /-! ### the step function -/
